@@ -68,7 +68,30 @@ contract(AC + "._update_state",
          params={"self": "obj:" + AC, "res": ANY_RESPONSE},
          modifies=STATE_ATTRS + PROP_ATTRS + ENERGY_ATTRS + HUM_ATTRS,
          raises={},
-         notes="contract used at call sites; its frame and raise-set are verified per response class by the variants below")
+         ensures={
+             "state.power": "implies(isinstance(res, StateResponse), self._power_state == res.power_on)",
+             "state.temperature": "implies(isinstance(res, StateResponse), self._target_temperature == res.target_temperature)",
+             "state.mode": "implies(isinstance(res, StateResponse) and res.operational_mode is not None, self._operational_mode == enum_or(AirConditioner.OperationalMode, res.operational_mode, AirConditioner.OperationalMode.FAN_ONLY))",
+             "state.fan_custom": "implies(isinstance(res, StateResponse) and old(self._supports_custom_fan_speed), self._fan_speed == res.fan_speed)",
+             "state.fan_enum": "implies(isinstance(res, StateResponse) and not old(self._supports_custom_fan_speed) and res.fan_speed is not None, self._fan_speed == enum_or(AirConditioner.FanSpeed, res.fan_speed, AirConditioner.FanSpeed.AUTO))",
+             "state.swing": "implies(isinstance(res, StateResponse) and res.swing_mode is not None, self._swing_mode == enum_or(AirConditioner.SwingMode, res.swing_mode, AirConditioner.SwingMode.OFF))",
+             "state.flags": "implies(isinstance(res, StateResponse), self._eco == res.eco and self._turbo == res.turbo and self._freeze_protection == res.freeze_protection and self._sleep == res.sleep and self._fahrenheit_unit == res.fahrenheit and self._follow_me == res.follow_me and self._purifier == res.purifier and self._display_on == res.display_on and self._filter_alert == res.filter_alert)",
+             "state.sensors": "implies(isinstance(res, StateResponse), self._indoor_temperature == res.indoor_temperature and self._outdoor_temperature == res.outdoor_temperature and self._target_humidity == res.target_humidity)",
+             "state.aux": "implies(isinstance(res, StateResponse), self._aux_mode == aux_mode_of(res))",
+             "state.leaves_properties": "implies(isinstance(res, StateResponse), self._breeze_mode == old(self._breeze_mode) and self._ieco == old(self._ieco) and self._rate_select == old(self._rate_select) and self._indoor_humidity == old(self._indoor_humidity))",
+             # C16: property responses are read back into the attributes (absent properties leave them alone)
+             "props.ieco": "implies(isinstance(res, PropertiesResponse), self._ieco == (prop(res, PropertyId.IECO) if prop(res, PropertyId.IECO) is not None else old(self._ieco)))",
+             "props.self_clean": "implies(isinstance(res, PropertiesResponse), self._self_clean_active == (prop(res, PropertyId.SELF_CLEAN) if prop(res, PropertyId.SELF_CLEAN) is not None else old(self._self_clean_active)))",
+             "props.angles": "implies(isinstance(res, PropertiesResponse), self._horizontal_swing_angle == (enum_or(AirConditioner.SwingAngle, prop(res, PropertyId.SWING_LR_ANGLE), AirConditioner.SwingAngle.OFF) if prop(res, PropertyId.SWING_LR_ANGLE) is not None else old(self._horizontal_swing_angle)) and self._vertical_swing_angle == (enum_or(AirConditioner.SwingAngle, prop(res, PropertyId.SWING_UD_ANGLE), AirConditioner.SwingAngle.OFF) if prop(res, PropertyId.SWING_UD_ANGLE) is not None else old(self._vertical_swing_angle)))",
+             "props.rate_select": "implies(isinstance(res, PropertiesResponse), self._rate_select == (enum_or(AirConditioner.RateSelect, prop(res, PropertyId.RATE_SELECT), AirConditioner.RateSelect.OFF) if prop(res, PropertyId.RATE_SELECT) is not None else old(self._rate_select)))",
+             "props.breeze_control": "implies(isinstance(res, PropertiesResponse) and prop(res, PropertyId.BREEZE_CONTROL) is not None, self._breeze_mode == enum_or(AirConditioner.BreezeMode, prop(res, PropertyId.BREEZE_CONTROL), AirConditioner.BreezeMode.OFF))",
+             "props.breeze_legacy_on": "implies(isinstance(res, PropertiesResponse) and prop(res, PropertyId.BREEZE_CONTROL) is None, implies(prop(res, PropertyId.BREEZELESS) == True, self._breeze_mode == AirConditioner.BreezeMode.BREEZELESS) and implies(prop(res, PropertyId.BREEZE_AWAY) == True and prop(res, PropertyId.BREEZELESS) != True, self._breeze_mode == AirConditioner.BreezeMode.BREEZE_AWAY))",
+             "props.breeze_legacy_off": "implies(isinstance(res, PropertiesResponse) and prop(res, PropertyId.BREEZE_CONTROL) is None and prop(res, PropertyId.BREEZE_AWAY) == False and prop(res, PropertyId.BREEZELESS) == False and old(self._breeze_mode) != AirConditioner.BreezeMode.BREEZE_MILD, self._breeze_mode == AirConditioner.BreezeMode.OFF)",
+             "other.leaves_state": "implies(not isinstance(res, StateResponse), self._power_state == old(self._power_state) and self._target_temperature == old(self._target_temperature) and self._operational_mode == old(self._operational_mode) and self._fan_speed == old(self._fan_speed) and self._swing_mode == old(self._swing_mode) and self._eco == old(self._eco) and self._turbo == old(self._turbo) and self._aux_mode == old(self._aux_mode) and self._target_humidity == old(self._target_humidity) and self._display_on == old(self._display_on))",
+             "humidity": "implies(isinstance(res, HumidityResponse), self._indoor_humidity == res.humidity)",
+             "unknown_ignored": "implies(type(res) is Response or isinstance(res, CapabilitiesResponse), self._indoor_humidity == old(self._indoor_humidity) and self._ieco == old(self._ieco) and self._breeze_mode == old(self._breeze_mode) and self._total_energy_usage == old(self._total_energy_usage))",
+         },
+         notes="contract used at call sites; the same clauses are verified per response class by the variants below (faster), and as a whole in the thorough tier")
 
 contract(AC + "._update_state#state",
          params={"self": "obj:" + AC, "res": "obj:" + CMD + "StateResponse"},
@@ -128,7 +151,7 @@ contract(AC + "._send_command_get_responses",
          rtype="list:" + ANY_RESPONSE,
          modifies=["Command._message_id"],
          assigns={"self._supported": "len(result) > 0"},
-         emits={"sent": "command"},
+         emits={"sent": "command", "got_list": "result"},
          raises={},
          ensures={"one_exchange": "len(events('sent')) == 1 and same_object(events('sent')[0], command)",
                   "every_frame_is_examined": "final('_i') == len(final('responses'))"},
@@ -158,6 +181,18 @@ contract(AC + ".refresh",
          ensures={"state_always_queried": "len(S) >= 1 and isinstance(S[0], GetStateCommand)",
                   "queries_only": "len(S) <= 4"},
          loops={"0": {"modifies": ALL_UPDATED}})
+
+contract(AC + ".refresh#one_state_response",
+         params={"self": "obj:" + AC}, globals=G,
+         scenario={AC + "._send_command_get_responses": "len(result) == (1 if isinstance(command, GetStateCommand) else 0) and implies(len(result) == 1, isinstance(result[0], StateResponse))"},
+         modifies=ALL_UPDATED + ["self._online", "self._supported", "Command._message_id"],
+         raises={},
+         post_let={"r": "events('got_list')[0][0]"},
+         ensures={"online": "self._online == True",
+                  "c01.refresh_reports_the_device_state": "self._power_state == r.power_on and self._target_temperature == r.target_temperature and self._eco == r.eco and self._turbo == r.turbo and self._sleep == r.sleep and self._fahrenheit_unit == r.fahrenheit and self._follow_me == r.follow_me and self._purifier == r.purifier and self._display_on == r.display_on and self._target_humidity == r.target_humidity and self._freeze_protection == r.freeze_protection and self._indoor_temperature == r.indoor_temperature and self._outdoor_temperature == r.outdoor_temperature and self._aux_mode == aux_mode_of(r)",
+                  "c01.from_any_prior_state": "True"},
+         notes="C01 (up): whatever the client's attributes were, after a refresh that receives the device's state response they equal the response's fields; "
+               "construct ties those fields to the decoded frame body, LAN.send/_read to the decoded packets")
 
 contract(AC + ".refresh#no_valid_response",
          params={"self": "obj:" + AC}, globals=G,
